@@ -32,7 +32,7 @@ LEVEL_TEXT = ("All 96 public callables found by introspection are called through
               "argument is checked for bit-identical content, shape, dtype, strides after the call in C / Fortran / negative-stride / sliced "
               "layouts and several dtypes, and is also passed as a read-only view so that any in-place write traps with a traceback; global "
               "state is compared before and after; calls are repeated with equal arguments after unrelated calls; random programs on a "
-              "shared pool of arrays are executed in two orders and isolated, and all operations in two fresh interpreters in opposite orders; results and pool must agree. Arrays already returned are kept uncopied and must not change during later calls (2600-step runs); 15 batch-capable functions are compared item by item with the single-item call. Exploration over programs.")
+              "shared pool of arrays are executed in two orders and isolated, and all operations in two fresh interpreters in opposite orders; results and pool must agree. Arrays already returned are kept uncopied and must not change during later calls (2600-step runs); 15 batch-capable functions are compared item by item with the single-item call. Image-processing, interpolation and transform callables are also exercised on frames containing NaN and +-inf pixels (arguments must stay byte-identical). Exploration over programs.")
 LEVEL_NOTE = "Trusted: NumPy's read-only flag and blake2b digests. Results that alias an argument (angularSpectrum with z = 0 returns its input) are recorded, not judged."
 RULE = "case = (callable, recipe variant, layout, dtype, pass) or one program; non-trivial when the call has at least one array argument; distinct by those"
 ASSUMPTIONS = ["recipes use valid, small inputs; an exception in a dtype/layout *variant* that the plain call does not raise is recorded, not judged"]
